@@ -25,6 +25,11 @@ class PathInfeasible(Exception):
     """The path condition became unsatisfiable: abandon this path silently."""
 
 
+class PathEnd(Exception):
+    """This path only existed to explore a fork inside a scoped (generic-element) block; the block is done and
+    everything after it is covered by the sibling path."""
+
+
 class PathBudget(Exception):
     """Path budget exhausted -> undecided (never 'proved')."""
 
@@ -535,7 +540,7 @@ class Obligation:
 class PathCtx:
     """One execution of the function under verification along one decision prefix."""
 
-    def __init__(self, prefix=(), timeout_ms=20000, max_decisions=400):
+    def __init__(self, prefix=(), timeout_ms=20000, max_decisions=400, end_scope=None):
         self.solver = z3.Solver()
         self.solver.set("timeout", timeout_ms)
         self.timeout_ms = timeout_ms
@@ -544,6 +549,10 @@ class PathCtx:
         self.cvc5_calls = 0
         self.last_backend = "z3"
         self.prefix = list(prefix)
+        self.end_scope = end_scope  # scope instance in which the flipped decision of this prefix was taken
+        self.scope_n = 0
+        self.scope_stack = []
+        self.defs = []
         self.trace = []  # decisions taken so far on this path
         self.pending = []  # new prefixes to explore
         self.obligations: list[Obligation] = []
@@ -715,7 +724,7 @@ class PathCtx:
             if _FORKS is not None:
                 key = (getattr(self, "cur_line", None), "unk" if (rt != z3.sat or rf != z3.sat) else "sat")
                 _FORKS[key] = _FORKS.get(key, 0) + 1
-            self.pending.append(self.trace + [False])
+            self.pending.append((self.trace + [False], self.scope_stack[-1] if self.scope_stack else None))
             self.trace.append(True)
             self.solver.add(cond)
             return True
@@ -819,11 +828,30 @@ class PathCtx:
         return d
 
     # -- scoped hypotheses (generic elements) -----------------------------
+    def assume_def(self, t):
+        """A *definitional* axiom for a fresh symbol (conservative extension): survives scope exits."""
+        t = tb(t)
+        self.solver.add(t)
+        self.defs.append([len(self.scope_stack), t])
+
     def push(self):
         self.solver.push()
+        self.scope_n += 1
+        self.scope_stack.append(self.scope_n)
 
     def pop(self):
+        import sys as _sys
+
         self.solver.pop()
+        sid = self.scope_stack.pop()
+        depth = len(self.scope_stack)
+        for d in self.defs:
+            if d[0] > depth:
+                self.solver.add(d[1])
+                d[0] = depth
+        if self.end_scope is not None and sid == self.end_scope and len(self.trace) >= len(self.prefix):
+            if _sys.exc_info()[0] is None:
+                raise PathEnd()
 
     # -- ghost effect trace -----------------------------------------------
     def effect(self, kind, *info):
